@@ -67,7 +67,7 @@ func runC14(e *Env) {
 			}
 			nNil++
 			lits := e.DCS(rt)
-			r.Check(HasVal(lits, IsCallOf(hasCycle), false), "graph setup: nil only when hasCycle() is false", e.InstrPos(rt),
+			r.Check(cycleNeg(lits, IsCallOf(hasCycle)), "graph setup: nil only when hasCycle() is false", e.InstrPos(rt),
 				"the edge setup reports success although the cycle test was positive (or was not consulted): a cyclic DAG is admitted and the run never finishes", e.FactsStr("dominating conditions: ", lits))
 		}
 	}
@@ -339,7 +339,7 @@ func c14Constructors(e *Env, setup, hasCycle *ssa.Function) {
 				continue
 			}
 			n++
-			if !HasVal(e.DCS(rt), IsCallOf(hasCycle), false) {
+			if !cycleNeg(e.DCS(rt), IsCallOf(hasCycle)) {
 				return false
 			}
 		}
@@ -415,7 +415,7 @@ func c14Constructors(e *Env, setup, hasCycle *ssa.Function) {
 				}
 			}
 			for _, cc := range cycCalls {
-				if firstEdge != nil && ir.Precedes(firstEdge, cc) && HasVal(e.DCS(rt), func(v ssa.Value) bool { return ir.Resolve(v) == ssa.Value(cc) }, false) {
+				if firstEdge != nil && ir.Precedes(firstEdge, cc) && cycleNeg(e.DCS(rt), func(v ssa.Value) bool { return ir.Resolve(v) == ssa.Value(cc) }) {
 					okCycle = true
 				}
 			}
